@@ -45,7 +45,50 @@ def resume_restores_instance_context(ctx, tag):
                   "which all per-cgroup instances of a ruleset share - or built on the resume tick)", witness_path(impl, fr, i))
 
 
+def action_context_is_replaced_whole(ctx, tag):
+    """OomdContext::setActionContext puts the given context in place AS A WHOLE and unconditionally, and getActionContext hands that
+    object out: restoring a suspended chain's saved context, or starting a fresh one, leaves nothing of the previous context behind (no
+    field-wise copy that skips a field when the new value is 'empty')."""
+    P, cg = ctx.prog, ctx.cg
+    st = ctx.use(ctx.fn1("Oomd::OomdContext::setActionContext"))
+    gt = ctx.use(ctx.fn1("Oomd::OomdContext::getActionContext"))
+    if len(st.params) != 1:
+        ctx.broken(tag + ":action-context-is-replaced-whole", "anchor", st.loc(), "setActionContext no longer takes exactly the context")
+        return
+    ws = field_writes(st, "action_context_")
+    whole = [w for w in ws if st.text(st.nodes[w].get("l", st.nodes[w].get("recv", -1))) == "this->action_context_"]
+    part = [w for w in ws if w not in whole]
+    fl = Flow(P, st, cg=cg)
+    X = Expander(P, st)
+    ok = len(whole) >= 1 and not part
+    why = ""
+    if part:
+        why = "it writes %s field by field" % st.text(st.nodes[part[0]].get("l", st.nodes[part[0]].get("recv", -1)))
+    elif not whole:
+        why = "there is no assignment of the whole object"
+    for w in whole:
+        rhs = X(write_rhs(st, w))
+        if not re.fullmatch(r"(std::move\()?param:%s\)?" % re.escape(st.params[0]["name"]), rhs):
+            ok, why = False, "it stores %s" % rhs[:60]
+    if ok:
+        for kind, node, b, parts in fl.exits():
+            pass
+        ev = {w: [("set", "stored")] for w in whole if st.pos_of(w) is not None}
+        fs = Flow(P, st, events=ev, cg=cg)
+        for e in fs.exits():
+            if not all("stored" in st_.must for st_ in e[3].values()):
+                ok, why = False, "an exit is reachable without the assignment"
+    ctx.check(ok, tag + ":action-context-is-replaced-whole", "who-may-write + must_pass_through", st.loc(),
+              "setActionContext assigns the whole context on every path",
+              "OomdContext::setActionContext does not simply replace the action context (%s): a part of the previous context survives - a resumed chain, or the "
+              "next ruleset's fresh chain, runs with another chain's target cgroup / uuid / deadline" % why)
+    rets = [ret_text(gt, r) for r in returns(gt)]
+    ctx.check(rets == ["this->action_context_"], tag + ":action-context-getter-is-plain", "return_table", gt.loc(),
+              "getActionContext returns the stored context", "getActionContext returns %s" % rets)
+
+
 def run(ctx):
+    action_context_is_replaced_whole(ctx, "C06")
     uuid_generator_keeps_state(ctx)
     pg_scan_sampling_tick(ctx, "C06")
     from .C02 import engine_evaluation_order
